@@ -11,17 +11,51 @@ variable {α β κ : Type}
 
 /-! ### minArray / maxArray -/
 
-theorem top1Loop_eq {key : α → Option κ} {cmp : κ → κ → Option Ordering} {k : α → κ}
+/-- a key function that is total on thunks (it may ignore its argument, so it is defined on
+    failing elements too): the scan over the thunks is the documented fold -/
+theorem top1Loop_eq {key : Option α → Option κ} {cmp : κ → κ → Option Ordering} {k : Option α → κ}
+    {ord : κ → κ → Ordering} (hk : ∀ e, key e = some (k e)) (hc : ∀ p q, cmp p q = some (ord p q))
+    (want : Ordering) (m : Option α) (xs : List (Option α)) :
+    top1Loop key cmp want m (k m) xs = top1Spec k ord want m xs := by
+  induction xs generalizing m with
+  | nil => rfl
+  | cons c r ih =>
+    simp only [top1Loop, hk, hc]
+    by_cases h : ord (k c) (k m) = want
+    · have hb : (ord (k c) (k m) == want) = true := by simp [h]
+      rw [if_pos hb, ih]
+      simp [top1Spec, h]
+    · have hb : ¬ (ord (k c) (k m) == want) = true := by simp [h]
+      rw [if_neg hb, ih]
+      simp [top1Spec, h]
+
+theorem top1M_eq {key : Option α → Option κ} {cmp : κ → κ → Option Ordering} {k : Option α → κ}
+    {ord : κ → κ → Ordering} (hk : ∀ e, key e = some (k e)) (hc : ∀ p q, cmp p q = some (ord p q))
+    (want : Ordering) (xs : List (Option α)) (onEmpty : Option (Option α)) :
+    top1M key cmp want xs onEmpty =
+      match xs with
+      | [] => evalOnEmpty onEmpty
+      | m :: r => top1Spec k ord want m r := by
+  cases xs with
+  | nil => rfl
+  | cons m r =>
+    simp only [top1M, hk]
+    exact top1Loop_eq hk hc want m r
+
+/-- a key function that uses its argument (`fun e => e.bind key`): the round-3 statement — every
+    element is evaluated and the scan runs on the values -/
+theorem top1Loop_strict {key : α → Option κ} {cmp : κ → κ → Option Ordering} {k : α → κ}
     {ord : κ → κ → Ordering} (hk : ∀ x, key x = some (k x)) (hc : ∀ p q, cmp p q = some (ord p q))
     (want : Ordering) (m : α) (xs : List (Option α)) :
-    top1Loop key cmp want m (k m) xs = (evalAll xs).map (top1Spec k ord want m) := by
+    top1Loop (fun e => e.bind key) cmp want (some m) (k m) xs =
+      (evalAll xs).map (top1Spec k ord want m) := by
   induction xs generalizing m with
   | nil => rfl
   | cons e r ih =>
     cases e with
     | none => rfl
     | some c =>
-      simp only [top1Loop, hk, hc, evalAll]
+      simp only [top1Loop, Option.bind_some, hk, hc, evalAll]
       by_cases h : ord (k c) (k m) = want
       · have hb : (ord (k c) (k m) == want) = true := by simp [h]
         rw [if_pos hb, ih]
@@ -30,10 +64,10 @@ theorem top1Loop_eq {key : α → Option κ} {cmp : κ → κ → Option Orderin
         rw [if_neg hb, ih]
         cases evalAll r <;> simp [top1Spec, h]
 
-theorem top1M_eq {key : α → Option κ} {cmp : κ → κ → Option Ordering} {k : α → κ}
+theorem top1M_strict {key : α → Option κ} {cmp : κ → κ → Option Ordering} {k : α → κ}
     {ord : κ → κ → Ordering} (hk : ∀ x, key x = some (k x)) (hc : ∀ p q, cmp p q = some (ord p q))
     (want : Ordering) (xs : List (Option α)) (onEmpty : Option (Option α)) :
-    top1M key cmp want xs onEmpty =
+    top1M (fun e => e.bind key) cmp want xs onEmpty =
       match xs with
       | [] => evalOnEmpty onEmpty
       | _ :: _ => (evalAll xs).bind (fun vs =>
@@ -46,8 +80,8 @@ theorem top1M_eq {key : α → Option κ} {cmp : κ → κ → Option Ordering} 
     cases e with
     | none => rfl
     | some m =>
-      simp only [top1M, hk, evalAll]
-      rw [top1Loop_eq hk hc]
+      simp only [top1M, Option.bind_some, hk, evalAll]
+      rw [top1Loop_strict hk hc]
       cases evalAll r <;> simp
 
 /-- the scan returns the *first* extremal element: everything before it is strictly worse,
